@@ -7,14 +7,17 @@ PROP = {'gen': [],
  'props_file': 'theories/Props/C09.v',
  'props_module': 'Props.C09',
  'corr_check': 'SNT.Corr.C09Corr.c09_check (model Render/CellLayout.v + Render/Writer.v vs surf_n_term::{TerminalWriter, Cell::layout, '
-               'Utf8Decoder inside the io::Write adapters, view::Text})',
+               'Utf8Decoder inside the io::Write adapters, CellWrite::put_text / put_fmt, Utf8CellWriter::parent / TTYCellWriter::parent, '
+               'view::Text, TextDeserializer})',
  'level_text': 'Coq theorems over an executable model of Cell::layout, TerminalWriter::put_cell (glyph fallback, overlay, face fill), the '
                'three io::Write adapters (UTF-8 decoder, escape-sequence tokenizer over any automaton) and Text::layout/render: every '
-               'client program (put_char/put_cell/set_face/set_wraps/set_cursor/writes) leaves cells outside the view unchanged and never '
+               'client program (put_char/put_cell/put_text/set_face/set_wraps/set_cursor/writes, and sessions that keep one utf8_writer()/'
+               'tty_writer() adapter over several writes with operations on adapter.parent() in between) leaves cells outside the view unchanged and never '
                'panics; for a caller that stops a write operation at its first Err, outcome and writer state do not depend on how written '
-               'bytes are partitioned (a caller ignoring Err can observe the split: C09_ignoring_errors_refuted); the escape-sequence '
+               'bytes are partitioned (in a session: the bytes between two parent operations; a caller ignoring Err can observe the split: C09_ignoring_errors_refuted); the escape-sequence '
                'write loop as coded equals the fold over bytes for any automaton; a text rendered at the size its layout reported shows every printable cell exactly once in reading '
-               'order (without wrapping: exactly those not beyond the right edge). Model tied to the code by a differential run '
+               'order (without wrapping: exactly those not beyond the right edge); a Text deserialised from JSON (TextDeserializer) holds '
+               'exactly the characters and glyphs of the document in document order under the faces of the enclosing objects. Model tied to the code by a differential run '
                '(canvas of sentinel cells, plain/offset/strided/transposed views, all partitions of short strings).',
  'level_note': 'Trusted: Coq kernel + vm_compute; hand-written model validated by the correspondence run; char widths (unicode-width), '
                'image cell sizes, glyph sizes, the dump of TTY_COMMAND_AUTOMATA and the effect of SGR sequences on faces are sent by the '
@@ -34,4 +37,7 @@ PROP = {'gen': [],
                   HARNESS],
  'assumptions': ['cell sizes, cursor positions and text lengths stay below 2^63 (no usize overflow in cursor arithmetic)',
                  'colours are opaque (alpha 255) in the correspondence run; the theorems do not depend on the face algebra',
-                 'a caller of io::Write::write gives up at the first Err (write_all semantics)']}
+                 'a caller of io::Write::write gives up at the first Err (write_all semantics)',
+                 'JSON text: faces arrive parsed (the crate\'s own Face parser is the oracle, C14), glyphs are compared by size and fallback '
+                 'text; documents that are not string | list | object (an error value) are not generated',
+                 'operations on adapter.parent() are the writer\'s own operations other than io::Write::write']}
